@@ -49,6 +49,12 @@ func (bc *Context) buildLayers(ctx context.Context) ([]v1.Layer, error) {
 		return nil, fmt.Errorf("building filesystem: %w", err)
 	}
 
+	// Like BuildLayer, reset /etc/apk/repositories to the runtime repositories
+	// so that build-time repositories do not end up in the image.
+	if err := bc.postBuildSetApk(ctx); err != nil {
+		return nil, err
+	}
+
 	// Use our layering strategy to partition packages into a set of Budget groups.
 	groups, err := groupByOriginAndSize(pkgs, bc.ic.Layering.Budget)
 	if err != nil {
